@@ -204,6 +204,142 @@ def run_life(pid, tier, t0, rule, assumptions, extra_runs=None):
     return 1 if viol else 0
 
 
+CONC_PROGS = {
+    "C10": {"quick": {"dfs": [[["any", "ord"], ["any", "ord"]], [["ord", "any"], ["any", "ord"]], [["any"], ["any"], ["any"]],
+                              [["ord"], ["ord"], ["ord"]], [["any", "any"], ["any", "any"]], [["ord", "ord"], ["ord"]]],
+                      "random": [[["any", "ord", "any"], ["ord", "any", "any"], ["any", "ord"]]], "runs": 300,
+                      "free": [[["any", "ord", "any"], ["any", "any", "ord"], ["any"], ["ord", "any"]]], "free_runs": 400,
+                      "mc": [("T2", "P21"), ("T3", "P3mix"), ("T3", "P3one")]},
+            "thorough": {"dfs": [[["any", "ord"], ["any", "ord"]], [["ord", "any"], ["any", "ord"]], [["any"], ["any"], ["any"], ["any"]],
+                                 [["ord"], ["ord"], ["ord"]], [["any", "any", "any"], ["any", "any", "any"]], [["ord", "ord"], ["ord"]],
+                                 [["any", "ord"], ["ord", "any"], ["any"]], [["any"], ["ord"], ["any"], ["ord"]], [["any", "ord", "any"], ["ord", "any", "ord"]]],
+                         "random": [[["any", "ord", "any"], ["ord", "any", "any"], ["any", "ord"], ["any", "any"]]], "runs": 3000,
+                         "free": [[["any", "ord", "any"], ["any", "any", "ord"], ["any"], ["ord", "any"], ["any", "any"], ["ord"], ["any"], ["any"]]], "free_runs": 5000,
+                         "mc": [("T2", "P21"), ("T3", "P3mix"), ("T3", "P3one"), ("T4", "P4one"), ("T2", "P23")]}},
+}
+CONC_INV = ["DistinctPositions", "ResponsesArePositions", "SingleDelivery", "AllErrorsRecorded", "VerdictIsSequential"]
+TLC_CP = "/opt/veriftools/tla/tla2tools.jar:/opt/veriftools/tla/CommunityModules-deps.jar"
+
+
+def validate_trace(trace_path, name):
+    """Run ConcTrace.tla on an ndjson trace. Returns (ok, unmatched_index, states)."""
+    import subprocess, shutil
+    d = os.path.join(vf.WORK, "tlc", name)
+    shutil.rmtree(d, ignore_errors=True)
+    os.makedirs(d, exist_ok=True)
+    cfgp = os.path.join(d, "trace.cfg")
+    open(cfgp, "w").write('SPECIFICATION TSpec\nCONSTANTS\n  Thread <- T8\n  CounterImpl = "fetch_add"\nCONSTRAINT Track\nINVARIANT TraceSingleUse\nPOSTCONDITION Accepted\nCHECK_DEADLOCK FALSE\n')
+    env = dict(os.environ); env["TRACE"] = trace_path
+    cmd = ["java", "-XX:+UseParallelGC", "-Xss1g", "-Xmx6g", "-cp", TLC_CP, "tlc2.TLC", "-workers", "1", "-metadir", os.path.join(d, "states"),
+           "-cleanup", "-noGenerateSpecTE", "-config", cfgp, os.path.join(vf.TLA, "ConcTrace.tla")]
+    try:
+        p = subprocess.run(cmd, cwd=vf.TLA, env=env, capture_output=True, text=True, timeout=1500)
+    except subprocess.TimeoutExpired:
+        raise ToolError("trace validation timed out (%s)" % name)
+    finally:
+        shutil.rmtree(os.path.join(d, "states"), ignore_errors=True)
+    out = p.stdout
+    st = vf.parse_tlc(out)
+    import re
+    m = re.search(r'<<"UNMATCHED", (\d+),', out)
+    if m:
+        return False, int(m.group(1)), st
+    if "Model checking completed. No error has been found." in out:
+        return True, None, st
+    log(out[-3000:])
+    raise ToolError("trace validation failed to run (%s)" % name)
+
+
+def validate_all(trace_path, name, max_viol=5):
+    """Validate a concatenation of executions; on a rejection record it and go on with the rest.
+    Returns (n_events, list of rejected executions [{x, events, unmatched}], states)."""
+    lines = open(trace_path).read().splitlines()
+    rejected = []
+    states = 0
+    start = 0
+    cur = trace_path
+    round_ = 0
+    while True:
+        ok, idx, st = validate_trace(cur, "%s_r%d" % (name, round_))
+        states += st["distinct"]
+        if ok:
+            break
+        # idx is 1-based within the current file
+        gidx = start + idx - 1
+        # the execution containing that line
+        a = gidx
+        while a > 0 and '"reset"' not in lines[a]:
+            a -= 1
+        b = gidx + 1
+        while b < len(lines) and '"reset"' not in lines[b]:
+            b += 1
+        rejected.append({"events": [json.loads(x) for x in lines[a:b]], "unmatched_event": json.loads(lines[gidx]), "position_in_execution": gidx - a})
+        if len(rejected) >= max_viol or b >= len(lines):
+            break
+        start = b
+        round_ += 1
+        cur = os.path.join(vf.WORK, "tlc", name + "_rest.ndjson")
+        open(cur, "w").write("\n".join(lines[b:]) + "\n")
+    return len(lines), rejected, states
+
+
+def run_conc(pid, tier, t0, rule, assumptions):
+    import subprocess
+    plan = CONC_PROGS[pid][tier]
+    cov = {"states": 0, "transitions": 0, "traces_validated_against_impl": 0, "samples": [], "instances": [],
+           "evaluations": 0, "distinct_nontrivial": 0, "rule": rule, "exhaustive": False}
+    # 1. the specification: all interleavings of the split calls satisfy the property-shaped invariants
+    for (thr, prog) in plan["mc"]:
+        inst = {"module": "MC_Conc", "spec": "MSpec", "constants": {"Thread": "<-" + thr, "CounterImpl": '"fetch_add"', "Prog": "<-" + prog},
+                "invariants": CONC_INV, "view": "View"}
+        r = vf.run_tlc(inst, "conc_%s_%s" % (pid.lower(), prog), workers=8, timeout=900)
+        if r["violated"]:
+            raise ToolError("Conc.tla violates %s for %s (model error)" % (r["violated"], prog))
+        cov["states"] += r["distinct"]; cov["transitions"] += r["generated"]
+        cov["instances"].append({"name": "MC_Conc/" + prog, "mode": "exhaustive interleavings", "tlc_distinct_states": r["distinct"], "tlc_states_generated": r["generated"]})
+    # sensitivity: a counter split into load + store must break DistinctPositions in the model
+    sens = {"module": "MC_Conc", "spec": "MSpec", "constants": {"Thread": "<-T2", "CounterImpl": '"load_store"', "Prog": "<-P21"}, "invariants": CONC_INV, "view": "View"}
+    rs = vf.run_tlc(sens, "conc_sens", workers=4, timeout=600)
+    if rs["violated"] not in ("DistinctPositions", "ResponsesArePositions", "VerdictIsSequential"):
+        raise ToolError("sensitivity run (load+store counter) did not violate the position invariants: vacuous")
+    cov["sensitivity"] = {"CounterImpl=load_store": rs["violated"]}
+    # 2. the code: executions under the controlled scheduler / free running, validated against ConcTrace.tla
+    all_rej = []
+    for mode in ("dfs", "random", "free"):
+        progs = plan.get(mode)
+        if not progs:
+            continue
+        d = os.path.join(vf.WORK, "conc_%s_%s" % (pid.lower(), mode))
+        os.makedirs(d, exist_ok=True)
+        spec = {"mode": mode, "programs": progs, "max_schedules": 60000 if tier == "thorough" else 6000,
+                "runs": plan.get("free_runs" if mode == "free" else "runs", 200), "seed": vf.seed()}
+        json.dump(spec, open(os.path.join(d, "spec.json"), "w"))
+        tr = os.path.join(d, "trace.ndjson")
+        p = subprocess.run([vf.VH, "conc", os.path.join(d, "spec.json"), tr, os.path.join(d, "summary.json")], cwd=vf.VERIF, stderr=subprocess.DEVNULL, timeout=3000)
+        if p.returncode != 0:
+            raise ToolError("scheduler harness failed in mode %s (exit %s): are the yield hooks present?" % (mode, p.returncode))
+        summ = json.load(open(os.path.join(d, "summary.json")))
+        n_events, rej, st = validate_all(tr, "ctrace_%s_%s" % (pid.lower(), mode))
+        cov["states"] += st; cov["transitions"] += st
+        cov["traces_validated_against_impl"] += summ["executions"]
+        cov["evaluations"] += summ["executions"]
+        cov["distinct_nontrivial"] += summ["executions"] if mode == "dfs" else 0
+        cov["instances"].append({"name": "scheduler/" + mode, "executions": summ["executions"], "events": n_events, "yield_points_hit": summ["yield_points_hit"],
+                                 "programs": summ["programs"], "rejected": len(rej), "trace_spec_states": st})
+        for r in rej:
+            r["mode"] = mode
+        all_rej += rej
+        if not cov["samples"]:
+            cov["samples"].append([json.loads(x) for x in open(tr).read().splitlines()[:12]])
+    divs = [{"what": "execution not explainable by Conc.tla: no interleaving of the linearization points yields the observed outcome of %s" % json.dumps(r["unmatched_event"]),
+             "step": r["position_in_execution"], "expected": "an outcome reachable in tla/Conc.tla", "observed": r["unmatched_event"],
+             "beh": {"kind": "conc-trace", "mode": r["mode"], "events": r["events"]}, "in_scope": True} for r in all_rej]
+    viol, known = report(pid, divs, len(divs))
+    cov["checker_cmd"] = "tlc MC_Conc.tla; harness vh conc; tlc ConcTrace.tla (POSTCONDITION Accepted)"
+    vf.write_evidence(pid, tier, LEVEL_MC, cov, assumptions, time.time() - t0, viol)
+    return 1 if viol else 0
+
+
 COMMON_ASSUME = [
     "argument domain is a small finite set; matchers are total and side-effect free",
     "expectations are produced by TLC from tla/Mock.tla; the harness only compares observables (return ids, panic classes, verification lines, drop counters)",
@@ -232,10 +368,22 @@ LIFE_RULES = {
 }
 
 
+CONC_ASSUME = [
+    "sequentially consistent interleavings at the granularity of the runtime's atomic operations and lock acquisitions (hook H2 yield points); weak-memory effects are outside the technique",
+    "the mock under test is the fixed one of tla/Conc.tla; outcomes observed by callers and the final verify() verdict are the only observables",
+    "free-running stress is one-sided: an unexplainable execution is real, absence proves nothing",
+]
+CONC_RULES = {
+    "C10": "(a) TLC: every interleaving of the split calls of fixed thread programs satisfies DistinctPositions / ResponsesArePositions / VerdictIsSequential (and a split counter violates them); (b) the real library under a baton scheduler: ALL schedules at the real yield points of each small program (depth-first, stateless), then seeded random schedules of larger programs, then free-running threads; every execution's begin/end events and verify() verdict must be accepted by ConcTrace.tla",
+}
+
+
 def run_property(pid, tier, t0):
     import mockplans
     if pid in mockplans.PLANS:
         return run_mock(pid, tier, t0, mockplans.PLANS, COMMON_ASSUME, RULES.get(pid, ""))
+    if pid in CONC_PROGS:
+        return run_conc(pid, tier, t0, CONC_RULES[pid], CONC_ASSUME)
     if pid in LIFE_PLANS:
         extra = None
         if pid == "C11":
@@ -247,6 +395,16 @@ def run_property(pid, tier, t0):
 def replay_file(pid, path):
     doc = json.load(open(path))
     beh = doc.get("beh", doc)
+    if isinstance(beh, dict) and beh.get("kind") == "conc-trace":
+        tr = os.path.join(vf.WORK, "replay_trace.ndjson")
+        open(tr, "w").write("\n".join(json.dumps(e) for e in beh["events"]) + "\n")
+        ok, idx, st = validate_trace(tr, "replay_trace")
+        if ok:
+            print("recorded execution is accepted by ConcTrace.tla")
+            return 0
+        print("VIOLATION property=%s replay=%s" % (pid, path))
+        log("recorded execution rejected at event %s: %s" % (idx, json.dumps(beh["events"][idx - 1])))
+        return 1
     import subprocess
     res = os.path.join(vf.WORK, "replay_result.json")
     p = subprocess.run([vf.VH, "replay", res, "--raw"], input=json.dumps(beh) + "\n", text=True, cwd=vf.VERIF)
